@@ -27,6 +27,7 @@ func init() {
 func runC03(c *Ctx) {
 	// ---- R1 ------------------------------------------------------------------------------------
 	c.Rule("R1", "threshold threading in ComputeConsumerNextValSet: under Top_N > 0, minPower = ComputeMinPowerInTopN(activeValidators, Top_N) flows to SetMinimumPowerInTopN, OptInTopNValidators(activeValidators, minPower) and ComputeNextValidators(…, minPower) in that order; under Top_N == 0 the constant 0 flows to ComputeNextValidators", 7)
+	checkListRoles(c)
 	if f := c.Fn("pk.Keeper.ComputeConsumerNextValSet"); f != nil {
 		params := PCall("pk.Keeper.GetConsumerPowerShapingParameters", 0, nil, nil, PParam("consumerId"))
 		topN := PField(params, "Top_N")
